@@ -184,6 +184,48 @@ fn one(ctx: &Ctx, rep: &mut Report, id: usize, cfg: Cfg, k: usize, leg: &str) {
             }
         }
     }
+    // (iv') the verdict on a pair of individually invalid proofs whose defects are tuned to the batch factors seen on
+    // the previous run is "rejected" in both verifying modes, with and without seeds (over the free-module group,
+    // where the factors can be read off the final multiscalar multiplication)
+    if <P as Gx>::IS_FM && cfg.mn() > 1 {
+        let c2 = Case::random(cfg, VALUE_CLASSES[(k + 2) % 6], PROMISE_CLASSES[(k + 4) % 5], true, &mut rng);
+        if let Ok(p2) = c2.prove(&mut prng) {
+            let ts = vec![t.clone(), c2.transcript()];
+            let bump = |p: &Proof, d: &Scalar| -> Proof {
+                let mut parts = Parts::of(p);
+                parts.d1[0] = (Scalar::from_canonical_bytes(parts.d1[0]).unwrap() + d).to_bytes();
+                parts.to_proof().unwrap()
+            };
+            let bs: Vec<P> = [&proof, &p2].iter().filter_map(|x| Parts::of(x).to_ref().map(|r| r.b)).collect();
+            for (sname, ss) in [("no seeds", [None, None]), ("own seeds", [Some(seed), c2.seed])] {
+                let sts = vec![case.statement_with(&prm, &case.promises, ss[0]), c2.statement_with(&c2.params(), &c2.promises, ss[1])];
+                for action in [VerifyAction::VerifyOnly, VerifyAction::RecoverAndVerify] {
+                    let di = rand_scalar(&mut rng);
+                    let mut dj = -di;
+                    for round in 0..3 {
+                        let pr = vec![bump(&proof, &di), bump(&p2, &dj)];
+                        <P as Gx>::probe_arm();
+                        let r = no_panic(|| verify_many(&ts, &sts, &pr, action));
+                        let w = <P as Gx>::probe_take_weights(&bs);
+                        rep.count("adaptive_pair_verdicts", 1);
+                        if let Ok(Ok(_)) = r {
+                            rep.violation(
+                                &format!("C10 verdict-depends-on-mode adaptive-pair {}", action_name(action)),
+                                &format!("two individually invalid proofs with offsetting defects (tuned to the factors of the previous run, round {round}) are accepted in {} ({sname}); each alone is rejected in every mode", action_name(action)),
+                                replay("adaptive pair"),
+                            );
+                            break;
+                        }
+                        match w {
+                            Some(w) if w.len() == 2 && w[1] != Scalar::ZERO => dj = -di * w[0] * w[1].invert(),
+                            _ => break,
+                        }
+                    }
+                }
+            }
+            rep.eval(&(GROUP, case.key(), "adaptive-pair"));
+        }
+    }
     // (v) in a batch whose members share one seed (a wallet scanning its own outputs), RecoverOnly returns the same
     // masks as RecoverAndVerify, member by member - and for members made with that seed, the true mask
     {
